@@ -600,6 +600,17 @@ func Run(r *report.Run) int {
 					}
 				}
 			}
+			// directed torn-write shapes, both tiers: the END of the block (CRC trailer included) zeroed or
+			// overwritten - what a write that stopped early, or a trimmed sector, leaves - and the head
+			for _, n := range []int{4, 8, 16, 66, 70, 130, 512, 2048, 4092} {
+				off := regx.BlockSize - n
+				mk(bk, "zero-span", off, n, off, true)
+				mk(bk, "burst-bytes", off, n, off, true)
+			}
+			for _, n := range []int{4, 62, 512, 2048} {
+				mk(bk, "zero-span", 0, n, 0, true)
+				mk(bk, "burst-bytes", 0, n, 0, true)
+			}
 			if r.Thorough() {
 				for i := 0; i < 600; i++ {
 					switch i % 3 {
